@@ -1274,3 +1274,109 @@ def vc_rej_rollback_before_pop(fns, variants, work):
     eng.seeds = {"_0", "_2"}
     eng.run()
     return summarize(eng, found, {"pop_sites_reached": pops[0]}, work, "c05p", witness_ok=pops[0] > 0, witness_note="pop not reached")
+
+
+# ------------------------------------------------------------------------------------------ C15 / C18 (more)
+FS_TOUCH = r"(^|[^\w])(remove_file|remove_dir|create_dir_all|create_dir|File::create|OpenOptions::open|set_permissions|File::open|rename|hard_link|copy|write)(::<|$)"
+
+
+def vc_first_touch_is_unlink(fns, variants, work):
+    """save_modified_file: for a file that existed, nothing touches the file system before remove_file(file_path)
+    (no chmod / open / truncate of the possibly hard-linked inode)."""
+    fn = find_fn(fns, r"^save_modified_file$")
+    found, reached = [], [0]
+    existed_idx = mirvc.struct_field_index("ModifiedFile", "existed")
+
+    def on_call(eng, st, bb, site, stmt, dst, callee, args, nxt):
+        c = strip_generics(callee)
+        if re.search(r"(^|[^\w])remove_file$", c):
+            st.ghost = st.ghost | {"removed"}
+            reached[0] += 1
+        elif re.search(FS_TOUCH, c) and "removed" not in st.ghost and not re.search(r"(^|[^\w])remove_file", c):
+            file_param = [k for k, t in eng.fn.types.items() if re.fullmatch(r"_\d+", k) and int(k[1:]) <= eng.fn.nparams and "ModifiedFile" in t][0]
+            ref = eng.read_path(st, file_param, eng.fn.types[file_param])
+            existed = eng.read_path(st, "%s.%d" % (ref.target, existed_idx), "bool")
+            ok, model = eng.feasible(st, [existed])
+            eng.record_query("%s touch before unlink" % bb, list(st.pc) + [existed])
+            if ok:
+                found.append({"bb": bb, "stmt": stmt[:160], "what": "an existing file is touched (%s) before it is unlinked" % c[-40:], "model": {}, "trace": list(st.trace[-20:])})
+        return None
+
+    eng = Engine(fns, fn, variants, hooks={"on_call": on_call})
+    file_param = [k for k, t in fn.types.items() if re.fullmatch(r"_\d+", k) and int(k[1:]) <= fn.nparams and "ModifiedFile" in t]
+    eng.seeds = set(file_param)
+    eng.run()
+    return summarize(eng, found, {"remove_file_sites_reached": reached[0]}, work, "c15t", witness_ok=reached[0] > 0, witness_note="remove_file not reached")
+
+
+def vc_save_writes_content(fns, variants, work):
+    """save_modified_file: an Ok return for a file that is not deleted has created the file (File::create returned Ok) and
+    called write_to on it."""
+    fn = find_fn(fns, r"^save_modified_file$")
+    found, rets = [], [0]
+    deleted_idx = mirvc.struct_field_index("ModifiedFile", "deleted")
+
+    def on_call(eng, st, bb, site, stmt, dst, callee, args, nxt):
+        c = strip_generics(callee)
+        if re.search(r"File::create$", c):
+            st.ghost = st.ghost | {"created"}
+        elif c.endswith("ModifiedFile::write_to") and "created" in st.ghost:
+            st.ghost = st.ghost | {"written"}
+        return None
+
+    def on_return(eng, st, bb):
+        d0 = st.store.get("_0#disc")
+        if d0 is None:
+            d0 = eng.read_path(st, "_0#disc", "isize")
+        if "written" in st.ghost:
+            return
+        rets[0] += 1
+        file_param = [k for k, t in eng.fn.types.items() if re.fullmatch(r"_\d+", k) and int(k[1:]) <= eng.fn.nparams and "ModifiedFile" in t][0]
+        ref = eng.read_path(st, file_param, eng.fn.types[file_param])
+        deleted = eng.read_path(st, "%s.%d" % (ref.target, deleted_idx), "bool")
+        bad = [d0 == 0, z3.Not(deleted)]
+        ok, model = eng.feasible(st, bad)
+        eng.record_query("%s ok without write" % bb, list(st.pc) + bad)
+        if ok:
+            found.append({"bb": bb, "stmt": "return", "what": "save_modified_file returns Ok for a file that is not deleted without having written it", "model": {}, "trace": list(st.trace[-20:])})
+
+    eng = Engine(fns, fn, variants, hooks={"on_call": on_call, "on_return": on_return})
+    file_param = [k for k, t in fn.types.items() if re.fullmatch(r"_\d+", k) and int(k[1:]) <= fn.nparams and "ModifiedFile" in t]
+    eng.seeds = set(file_param) | {"_0"}
+    eng.run()
+    return summarize(eng, found, {"returns_checked": rets[0]}, work, "c18s", witness_ok=rets[0] > 0, witness_note="no return without write explored")
+
+
+def vc_worker_errors_checked(fns, variants, work):
+    """parallel::apply_patches: Ok is returned only after the collected worker errors were looked at and there was none."""
+    fn = find_fn(fns, r"^parallel::apply_patches$")
+    found, rets = [], [0]
+
+    def after_call(eng, st, bb, site, stmt, dst, callee, args, argv):
+        if re.search(r"Drain<'_, failure::Error> as Iterator>::next$", callee) and dst:
+            dpath, _ = eng.resolve(st, dst)
+            st.store["ghost:err_disc"] = eng.read_path(st, dpath + "#disc", "isize")
+
+    def on_return(eng, st, bb):
+        d0 = st.store.get("_0#disc")
+        if d0 is None:
+            d0 = eng.read_path(st, "_0#disc", "isize")
+        rets[0] += 1
+        e = st.store.get("ghost:err_disc")
+        bad = [d0 == 0] if e is None else [d0 == 0, e != 0]
+        ok, model = eng.feasible(st, bad)
+        eng.record_query("%s ok with worker error" % bb, list(st.pc) + bad)
+        if ok:
+            found.append({"bb": bb, "stmt": "return", "what": "Ok returned " + ("without looking at the workers' errors" if e is None else "although a worker reported an error"),
+                          "model": {}, "trace": list(st.trace[-20:])})
+
+    eng = Engine(fns, fn, variants, hooks={"after_call": after_call, "on_return": on_return})
+    seeds = {"_0"}
+    for bb, stmts in fn.blocks.items():
+        for s_ in stmts:
+            m = callm(s_)
+            if m and re.search(r"Drain<'_, failure::Error> as Iterator>::next$", m.group(2).strip()) and m.group(1):
+                seeds.add(m.group(1))
+    eng.seeds = seeds
+    eng.run()
+    return summarize(eng, found, {"returns_checked": rets[0]}, work, "c18w", witness_ok=rets[0] > 0, witness_note="no return explored")
